@@ -205,6 +205,18 @@ def evaluate(case):
     d = ref.d
     Rr = R(d, ref.T)
     alg = kd.build_algebra(cfg)
+    # every case first inverts and divides by a scalar-only multivector on the same algebra (the most common use); both the
+    # warm-up and everything after it must be right
+    two = kd.mk(alg, [0], [F(2)])
+    try:
+        w = kd.to_dict(two.inv(), op="inv")
+        w2 = kd.to_dict(kd.mk(alg, [0], [F(6)]) / two, op="div")
+    except Exception as e:
+        raise Violation("two-sided-inverse", "inv", f"inverse / division of the scalar multivector 2 raised {type(e).__name__}: {e}", exc=type(e).__name__)
+    for got_, exp_, what in ((w, {0: F(1, 2)}, "2.inv()"), (w2, {0: F(3)}, "6 / 2")):
+        ok, why = kd.elem_equal(got_, exp_, 1e-12 if d >= 6 else None)
+        if not ok:
+            raise Violation("two-sided-inverse", "inv", f"scalar multivector: {what}: {why}")
     elem = _build_elem(case["x"], ref, Rr)
     keys, vals = _layout(elem, case, d)
     floatmode = d >= 6
